@@ -81,6 +81,9 @@ func (k Keeper) Call(ctx sdk.Context, msg *types.MsgCall, view bool) ([]byte, er
 		return []byte{}, err
 	}
 	res, err := k.Tx(ctx, callerAddr, calleeAddr, msg.Value, msg.Data, []*payload.ContractMeta{}, view, false, false)
+	if err != nil {
+		return []byte{}, err
+	}
 	return res, nil
 }
 
